@@ -89,6 +89,9 @@ func checkC01(c *core.Ctx) {
 	if err != nil {
 		panic(err)
 	}
+	if b, err := os.ReadFile(sc.PkgAllFoi()); err == nil {
+		fo.FoiText = string(b)
+	}
 	c.Set("rule", "programs are enumerated by the choice-tree explorer: result type (int, string, bool, unit) x root position (let-bound, argument, body of its own function / statement, final expression) x every well-typed term with exactly k constructs of the alphabet (every production, every split of k over the holes, every leaf: traced constant or variable in scope); each is transpiled by fc, compiled by go build against the working tree's pkg/* and executed (batched, verdicts only on single-program re-runs); distinct = distinct program text; non-trivial = at least one construct and at least two output events")
 	c.Assumption("the documented subset of DESIGN.md 1.3: every let-bound name is used, local function lets only as direct statements of a function body, block-valued constructs parenthesised in operand/argument/target positions, division by zero / Head [] etc. are out of domain (skipped and counted)")
 	c.Assumption("reference semantics: strict, left to right, lexical scope (DESIGN.md appendix B); the prelude's traced leaves make order and multiplicity of evaluation visible in stdout")
